@@ -424,7 +424,7 @@ func TestPropPow(t *testing.T) {
 
 // ---- monotone square roots ------------------------------------------------------------------
 
-const sqrtRule = "MonotonicSqrt (18 dec) and MonotonicSqrtBigDec (36 dec): d drawn with bit length uniform up to 315 / 1000 bits, perfect squares +- 1 ulp, 0, 1 ulp; pairs d1<=d2 with gap 1 ulp, small, large; negative must error; oracle (big.Int): r^2 >= d and (r-1ulp)^2 < d (least such value), r1 <= r2; non-trivial = d not a perfect square; distinct by (variant,d)"
+const sqrtRule = "MonotonicSqrt (18 dec) and MonotonicSqrtBigDec (36 dec): d drawn with bit length uniform up to 315 / 1000 bits, perfect squares +- 1 ulp, inputs a whole number of 32/64/128-bit words above a perfect square (d*scale = r^2 + k*2^w, constructed), 0, 1 ulp; pairs d1<=d2 with gap 1 ulp, small, large; negative must error; oracle (big.Int): r^2 >= d and (r-1ulp)^2 < d (least such value), r1 <= r2; non-trivial = d not a perfect square; distinct by (variant,d)"
 
 func TestPropSqrt(t *testing.T) {
 	drv.Check(t, drv.Cfg{Name: "monotonic-sqrt", Rule: sqrtRule, Quick: 6000, Thorough: 300000}, func(rt *rapid.T, c *drv.Case) {
@@ -434,7 +434,7 @@ func TestPropSqrt(t *testing.T) {
 			scale, maxBits = P36, 1000
 		}
 		gen := func(label string) *big.Int {
-			switch rapid.IntRange(0, 5).Draw(rt, label+"Shape") {
+			switch rapid.IntRange(0, 6).Draw(rt, label+"Shape") {
 			case 0:
 				return big.NewInt(int64(rapid.IntRange(0, 5).Draw(rt, label+"Small")))
 			case 1: // perfect square (of a grid value) +- 1
@@ -442,6 +442,40 @@ func TestPropSqrt(t *testing.T) {
 				v := new(big.Int).Mul(s, s)
 				v.Quo(v, scale)
 				return v.Add(v, big.NewInt(int64(rapid.IntRange(-1, 1).Draw(rt, label+"Off")))).Abs(v)
+			case 2:
+				// limb-aligned shortfall: d*scale = r^2 + k*2^w (w = 32, 64, 128), the input lies a whole number of machine
+				// words above a perfect square, so its low words equal those of r^2 although r is not its exact root.
+				// scale = 2^p 5^p: r is a multiple of 2^(p/2), k solves r^2 + k 2^w = 0 (mod 5^p), and r is large enough
+				// for floor(sqrt(r^2 + k 2^w)) = r.
+				pw := 18
+				ws := []int{32, 64}
+				if big36 {
+					pw, ws = 36, []int{64, 128}
+				}
+				w := ws[rapid.IntRange(0, len(ws)-1).Draw(rt, label+"Word")]
+				five := new(big.Int).Exp(big.NewInt(5), big.NewInt(int64(pw)), nil)
+				half := new(big.Int).Lsh(ref.One, uint(pw/2))
+				r := randBits(rt, label, five.BitLen()+w+rapid.IntRange(1, 30).Draw(rt, label+"Extra"))
+				r.SetBit(r, five.BitLen()+w, 1) // at least 2^(bits(5^p)+w)
+				r.Sub(r, new(big.Int).Mod(r, half))
+				for new(big.Int).Mod(r, big.NewInt(5)).Sign() == 0 {
+					r.Add(r, half)
+				}
+				twoW := new(big.Int).Lsh(ref.One, uint(w))
+				inv := new(big.Int).ModInverse(new(big.Int).Mod(twoW, five), five)
+				k := new(big.Int).Mul(r, r)
+				k.Neg(k).Mul(k, inv).Mod(k, five)
+				if k.Sign() == 0 {
+					k.Set(five)
+				}
+				n := new(big.Int).Mul(r, r)
+				n.Add(n, new(big.Int).Mul(k, twoW))
+				q, rem := new(big.Int).QuoRem(n, scale, new(big.Int))
+				if rem.Sign() != 0 || new(big.Int).Sqrt(n).Cmp(r) != 0 {
+					rt.Fatalf("harness: limb-aligned construction broken (rem %s)", rem)
+				}
+				c.Class("limb-aligned-shortfall")
+				return q
 			default:
 				return randBits(rt, label, rapid.IntRange(0, maxBits).Draw(rt, label+"Bits"))
 			}
